@@ -133,6 +133,12 @@ class Exec:
         pre = []
         for r in c.requires:
             pre.append(Pure(self.ctx, self.entry_env).b(_parse_spec(r)))
+        if self.fd.name == "__init__" and "self" in st.vars:
+            st.vars["__ctor__"] = st.vars["self"]
+            st.vars["__ctor_cls__"] = VStrConst(self.cls or "")
+        for n_, v_ in list(st.vars.items()):
+            if not n_.startswith("__"):
+                pre.extend(self.inv_facts(v_, st))
         st = st.assume(*pre)
         if not self.ctx.expand_quant:
             from .lemmas import lemma_fact
@@ -393,6 +399,36 @@ class Exec:
             return s2
         self.oblige(f"immutable:{key}", z3.BoolVal(False), st=st, note=f"store to immutable field {key} outside its constructor")
         return s2
+
+    def inv_facts(self, v: V, st: St, depth=0):
+        """class invariants of a value that was read (parameter, field, list element, callee
+        result); never of the object under construction"""
+        if isinstance(v, VOpt):
+            inner = self.inv_facts(v.inner, st, depth)
+            return [z3.Implies(z3.Not(v.isnone), f) for f in inner]
+        if not isinstance(v, VObj):
+            return []
+        ctor = st.vars.get("__ctor__")
+        if ctor is not None and isinstance(ctor, VObj) and ctor.t.eq(v.t):
+            return []
+        out = []
+        todo = [v.kind]
+        seen = set()
+        while todo:
+            c = todo.pop()
+            if c in seen:
+                continue
+            seen.add(c)
+            for clause in api.INVARIANTS.get(c, []):
+                out.append(Pure(self.ctx, Env({"self": v}, st.heap)).b(_parse_spec(clause)))
+            info = api.CLASSES.get(c)
+            if info:
+                todo.extend(info.bases)
+        return out
+
+    def with_inv(self, v: V, st: St) -> St:
+        fs = self.inv_facts(v, st)
+        return st.assume(*fs) if fs else st
 
     def co(self, v: V, kind: str, st: St, what: str) -> V:
         """coerce; an Optional flowing into a non-optional slot must be not-None here"""
@@ -712,6 +748,7 @@ class Exec:
             if it and it[0] == "seq":
                 _, idx, seqv, tgt = it
                 elem = wrap_elem(seqv.ek, seqv.t[b.vars[idx].t])
+                b = self.with_inv(elem, b)
                 if tgt[0] == "elem":
                     b = self.assign(tgt[1], elem, b)[0]
                 elif tgt[0] == "zip":
@@ -1023,7 +1060,8 @@ class Exec:
                 if pc is not None and pc.is_property:
                     out.extend(self.call_contract(pc, [base], {}, s))
                     continue
-            out.append((read_field(self.ctx, s.heap, base, e.attr), s))
+            fv = read_field(self.ctx, s.heap, base, e.attr)
+            out.append((fv, self.with_inv(fv, s)))
         return out
 
     def ev_Subscript(self, e, st):
@@ -1080,7 +1118,8 @@ class Exec:
                     j = i
                 else:
                     j = z3.If(i < 0, n + i, i)
-                out.append((wrap_elem(base.ek, base.t[j]), s))
+                ev_ = wrap_elem(base.ek, base.t[j])
+                out.append((ev_, self.with_inv(ev_, s)))
                 continue
             raise Unsupported(f"subscript of {base.kind} by {idx.kind}")
         return out
@@ -1441,12 +1480,28 @@ class Exec:
                 f = Pure(self.ctx, post_env, rv).b(_parse_spec(clause))
                 assumed.append(f)
                 assumed.extend(seq_facts(f, bool(self.ctx.expand_quant)))
+            if not cc.qualname.endswith(".__init__"):
+                assumed.extend(self.inv_facts(rv, s3))
             out.append((rv, s3.assume(*assumed)))
         return out
 
     # ------------------------------------------------------------------ inlining
     def construct(self, cname, args, kw, st):
         info = api.CLASSES[cname]
+        cc = api.CONTRACTS.get(f"{cname}.__init__")
+        if cc is not None:
+            out = []
+            for vals, s in self.ev_list(list(args), st):
+                for kvals, s2 in self.ev_list(list(kw.values()), s):
+                    o = fresh(cname, "new" + cname)
+                    others = [v.t for v in s2.vars.values() if isinstance(v, VObj)]
+                    s3 = s2.assume(*[o.t != t for t in others]) if others else s2.fork()
+                    fr = s3.vars.get("__fresh__", VTuple([]))
+                    s3.vars["__fresh__"] = VTuple(fr.items + [o])
+                    for _, s4 in self.call_contract(cc, [o] + vals, dict(zip(kw.keys(), kvals)), s3):
+                        self.check_class_invariant(o, s4)
+                        out.append((o, s4))
+            return out
         init = None
         todo = [cname]
         while todo and init is None:
@@ -1469,10 +1524,28 @@ class Exec:
                     continue
                 for kind, s4, payload in self.inline_fd(init, [o] + vals, dict(zip(kw.keys(), kvals)), s3, ctor=o):
                     if kind == "return":
+                        self.check_class_invariant(o, s4)
                         out.append((o, s4))
                     elif kind == "raise":
                         self.pending.append((s4, payload))
         return out
+
+    def check_class_invariant(self, o: VObj, st: St):
+        """a newly constructed object must satisfy its class invariant (it is assumed for
+        every object read later)"""
+        todo = [o.kind]
+        seen = set()
+        while todo:
+            c = todo.pop()
+            if c in seen:
+                continue
+            seen.add(c)
+            for i, clause in enumerate(api.INVARIANTS.get(c, [])):
+                g = Pure(self.ctx, Env({"self": o}, st.heap)).b(_parse_spec(clause))
+                self.oblige(f"class-invariant:{c}#{i}", g, st=st, note=clause)
+            info = api.CLASSES.get(c)
+            if info:
+                todo.extend(info.bases)
 
     def super_init(self, args, kw, st):
         ctor = st.vars.get("__ctor__")
